@@ -1,2 +1,81 @@
-import Moclo.Model.Entity
-/-! placeholder for C10 (theorems follow) -/
+import Moclo.Proofs.Layout
+/-!
+# C10 — literature citations survive assembly with consistent numbering
+
+Model: `derefRec` (`_deref_citations`), `rerefRec` (`_ref_citations` on the product), `snapshot`/`restore`
+for the inputs; rotation, slicing and concatenation never touch the citation entries of a feature.
+References are opaque identities with decidable equality (`Reference.__eq__`).
+-/
+namespace Moclo.C10
+open Moclo
+
+theorem forall2_and {α β : Type} {R S : α → β → Prop} {l : List α} {l' : List β}
+    (h1 : List.Forall₂ R l l') (h2 : List.Forall₂ S l l') : List.Forall₂ (fun a b => R a b ∧ S a b) l l' := by
+  induction h1 with
+  | nil => exact List.Forall₂.nil
+  | cons hab _ ih =>
+    cases h2 with
+    | cons hc ht => exact List.Forall₂.cons ⟨hab, hc⟩ (ih ht)
+
+/-- dereferencing replaces every citation index of a record by the reference it points to -/
+theorem deref_points_to_reference {r r' : Rec} (h : derefRec r = some r') :
+    List.Forall₂ (fun f f' => List.Forall₂ (fun c c' => match c with
+      | .idx i => 1 ≤ i ∧ ∃ x, r.refs[i-1]? = some x ∧ c' = .ref x
+      | .ref x => c' = .ref x) f.cites f'.cites) r.feats r'.feats := by
+  obtain ⟨_, _, _, h4⟩ := derefRec_fields h
+  refine List.Forall₂.imp ?_ h4
+  intro f f' hf
+  unfold derefFeature at hf
+  cases hc : f.cites.mapM (derefCite r.refs) with
+  | none => simp [hc] at hf
+  | some cs =>
+    simp [hc] at hf; subst hf
+    refine List.Forall₂.imp ?_ (mapM_option_forall2 _ _ _ hc)
+    intro c c' hcc
+    cases c with
+    | ref x => simp only [derefCite, Option.some.injEq] at hcc; exact hcc.symm
+    | idx i =>
+      simp only [derefCite] at hcc
+      split at hcc
+      · cases hcc
+      · rename_i hi
+        cases hx : r.refs[i-1]? with
+        | none => simp [hx] at hcc
+        | some x => simp [hx] at hcc; exact ⟨by omega, x, hx, hcc.symm⟩
+
+/-- the citation entries of a feature are carried untouched by rotation, slicing, shifting and
+concatenation (so an inherited feature cites what its source feature cited) -/
+theorem cites_carried (n k : Nat) (d : Int) (f : Feature) :
+    (f.rotr n k).cites = f.cites ∧ (f.shift d).cites = f.cites ∧ (f.flip n).cites = f.cites := by
+  refine ⟨?_, rfl, rfl⟩
+  unfold Feature.rotr; split <;> rfl
+
+/-- **the product's reference list**: built from an empty list, it holds each cited reference exactly once
+and nothing else; every citation of the product is a bracketed index `[j]` and points to the very reference
+the (dereferenced) source citation denoted -/
+theorem product_references (pre : Rec) :
+    let p := rerefRec { pre with refs := [] }
+    p.refs.Nodup ∧
+    (∀ r ∈ p.refs, ∃ f ∈ pre.feats, Cite.ref r ∈ f.cites) ∧
+    List.Forall₂ (fun f f' => f'.ftype = f.ftype ∧ f'.qual = f.qual ∧ f'.parts = f.parts ∧
+      List.Forall₂ (fun c c' => match c with
+        | .ref r => ∃ j, c' = .idx (j + 1) ∧ p.refs[j]? = some r
+        | .idx i => c' = .idx i) f.cites f'.cites) pre.feats p.feats := by
+  obtain ⟨⟨extra, h1, h2⟩, h3, h4⟩ := rerefFeatures_spec [] pre.feats (by simp)
+  refine ⟨h3, ?_, ?_⟩
+  · intro r hr
+    have : r ∈ extra := by simpa [rerefRec, h1] using hr
+    exact h2 r this
+  · exact forall2_and (rerefFeatures_shape [] pre.feats) h4 |>.imp
+      (fun f f' h => ⟨h.1.1, h.1.2.1, h.1.2.2.1, h.2⟩)
+
+/-- **the inputs' own citation indices are unchanged afterwards** (shared with C07) -/
+theorem inputs_citations_unchanged (v : Ent) (mods : List Ent) (pid pname : Nat) :
+    (assemble v mods pid pname).2 = v.rcd :: mods.map (·.rcd) := assemble_inputs v mods pid pname
+
+/-! non-vacuity: two features citing overlapping references -/
+def exPre : Rec := ⟨0, [], [⟨1, .user 0, [], [.ref 7, .ref 5]⟩, ⟨1, .user 1, [], [.ref 5, .ref 8]⟩], [9]⟩
+example : ((rerefRec { exPre with refs := [] }).refs, (rerefRec { exPre with refs := [] }).feats.map (·.cites))
+    = ([7, 5, 8], [[.idx 1, .idx 2], [.idx 2, .idx 3]]) := by decide
+
+end Moclo.C10
